@@ -177,6 +177,18 @@ def region(s, fn_sig_pattern, start_pattern, end_pattern, what, include_end=True
     return s[a:b + (m.end() if include_end else m.start())]
 
 
+def without_item(s, pattern, what):
+    """The text with the (unique) braced item matched by pattern blanked out (used to keep
+    the feature-gated verif hook module out of the way of the anchors)."""
+    ms = list(re.finditer(pattern, s))
+    if not ms:
+        return s
+    if len(ms) != 1:
+        raise SliceError("anchor %s: %d matches" % (what, len(ms)))
+    a, _, e = fn_span(s, pattern, what)
+    return s[:a] + s[e:]
+
+
 def sha(text):
     return hashlib.sha256(text.encode("utf-8")).hexdigest()
 
